@@ -11,7 +11,9 @@ COMMON_ASSUMPTIONS = [
     "dev-profile build of /repo's working tree (overflow checks on); x86-64 little-endian host",
 ]
 
-def kind(c): return c.req.split(' ', 1)[0]
+def kind(c):
+    k = c.req.split(' ', 1)[0]
+    return 'poll' if k == 'pollr' else k   # pollr = a poll scenario through the thread's real entry point
 
 def is_ok(ans): return ans.startswith('ok ')
 
@@ -184,12 +186,12 @@ PROPS.update({
     level_note='Trusted: Lean kernel + standard axioms; correspondence is differential testing.',
  ),
  'C11': dict(
-    oracle='C11',
-    gens=lambda seed, th: [['genall']],
-    relevant=lambda c: kind(c) == 'gen',
+    oracle='C11', also=['C04'],
+    gens=lambda seed, th: [['genall'], ['crashgrid']],
+    relevant=lambda c: kind(c) in ('gen', 'crashpt'),
     nontrivial=lambda c: True,
     exhaustive=True,
-    rule="exhaustive: the real ShmWriter::write is run from each of the 65536 generation values poked into a tmpfs segment; the in-flight value is observed at the record-copy hook, the final value read from the file; all cases are non-trivial and distinct",
+    rule="exhaustive: the real ShmWriter::write is run from each of the 65536 generation values poked into a tmpfs segment; the in-flight value is observed at the record-copy hook, the final value read from the file; all cases are non-trivial and distinct. Plus the `crashpt` lines of C04 (restart over every kind of prior file, death at every event, incl. an old file and a non-UTF-8 file name): a published generation must never return to 0, i.e. a valid segment is never wiped by a restart (verdict C04)",
     trusted_base=["modelled: u16 wrapping arithmetic as Nat mod 65536"],
     technique='Lean 4 proof (omega) of the start/finish arithmetic for all 65536 values and of the invariant over all histories of completed/interrupted updates + exhaustive differential run of the real write()',
     level_text='Theorems C11.start_odd, finish_props, wrap, update_changes and history_invariant: for every start value and every history of start/finish/crash events the generation is odd during an update, even and non-zero when idle after a completed update, changes with every completed update and never returns to 0. The real write() is run from all 65536 start values on every run.',
@@ -266,8 +268,8 @@ PROPS.update({
  ),
  'C03': sl_entry('C03', lambda c: ('calls2' in c.tags and ('pubs2' in c.tags or 'catchup' in c.tags)) or 'longSkip' in c.tags or 'wrap' in c.tags,
     "plus `skip` lines: a real reader attached at generation g0 sleeps through n real publications (n up to 65535, incl. 16384, 32766, 32767 (the documented exception), 32768, across the 16-bit wrap and from an odd start) and then calls twice, sequentially. non-trivial = a reader makes >= 2 calls while >= 2 publications complete, or a quiescent fresh call checks the catch-up clause, or a skip of >= 16384 publications / across the wrap (tags calls2+pubs2, catchup, longSkip, wrap)",
-    gens=lambda seed, th: [['slgen', seed, 40000 if th else 1500], ['skipgen', 'all'] if th else ['skipgen'], ['crashgrid']],
-    relevant=lambda c: kind(c) in ('sl', 'skip', 'crashpt'),
+    gens=lambda seed, th: [['slgen', seed, 40000 if th else 1500], ['skipgen', 'all'] if th else ['skipgen'], ['crashgrid'], ['slxgen', 'all'] if th else ['slxgen']],
+    relevant=lambda c: kind(c) in ('sl', 'skip', 'crashpt', 'slx'),
     lean_modules=['ClockBound.Properties.C03', 'ClockBound.Properties.C03b'],
     technique='Lean 4 proof: coherence-based monotonicity invariant over all executions + catch-up theorem for fresh reads on a quiescent log + generation potential function for the 32767 exception; same schedule-level correspondence as C02',
     level_text='Theorems C03.accepted_monotone / cache_is_accepted_publication (the generation message behind a reader\'s cached snapshot never moves backwards), catches_up (no update in flight + fresh reads + cached generation differs => the call returns the latest completed publication), same_generation_serves_cache and equal_generation_same_message (the documented exception needs >= 32767 completed updates).',
@@ -303,8 +305,9 @@ PROPS['C01'] = dict(
 
 PROPS['C04'] = sl_entry('C04', lambda c: 'crash' in c.tags,
     "plus `crashpt` lines (file level): the real ShmWriter::new + first write is killed at EVERY hook point / shared access (k = 0..23) over 9 prior file states {missing, empty, garbage, wiped, valid with even / odd / near-wrap generation}, with a real reader attached beforehand when the segment was usable; then a restarted writer publishes; observed: what the dead writer left, whether it can be opened, inode/length, what the attached and a fresh reader obtain. non-trivial = the writer was killed (tag crash)",
-    gens=lambda seed, th: [['slgen', seed, 30000 if th else 1200], ['crashgrid']],
-    relevant=lambda c: kind(c) in ('sl', 'crashpt'),
+    gens=lambda seed, th: [['slgen', seed, 30000 if th else 1200], ['crashgrid'], ['slxgen', 'all'] if th else ['slxgen'], ['hdr-seg', seed, 20000 if th else 1500]],
+    relevant=lambda c: kind(c) in ('sl', 'crashpt', 'slx', 'seg'),
+    also=['C16'],
     exhaustive=True,
     lean_modules=['ClockBound.Properties.C04', 'ClockBound.Properties.C02', 'ClockBound.Properties.C03', 'ClockBound.Properties.C03b'],
     technique='Lean 4 proofs: (a),(b) the C02/C03 invariants are proved over a step relation that contains writer death at any access and restart; (c),(d) file-level model of ShmWriter::new + first write as an event script with death at every event, all prior file states + exhaustive crash-point sweep of the real code and scheduler runs with kills',
